@@ -75,6 +75,40 @@ package core
 //@ ensures[sum] result == attrFees(bc, tx, len(tx.Attributes))
 //@ loop 0 invariant feeSum == attrFees(bc, tx, $i) && 0 <= feeSum && feeSum <= $i * 256000000000
 
+// Read-only helpers of the packing prologue. The first four are verified to write nothing;
+// the witness-size and validator-script computations are assumed to.
+//@ func (*Blockchain).BlockHeight
+//@ requires bc != nil
+//@ package github.com/nspcc-dev/neo-go/pkg/config
+//@ func getBestFromMap
+//@ func (ProtocolConfiguration).GetNumOfCNs
+//@ package github.com/nspcc-dev/neo-go/pkg/smartcontract
+//@ func GetDefaultHonestNodeCount
+//@ func CreateDefaultMultiSigRedeemScript
+//@ assumed
+//@ pure
+//@ package github.com/nspcc-dev/neo-go/pkg/core/block
+//@ func (*Block).GetExpectedBlockSizeWithoutTransactions
+//@ assumed
+//@ pure
+//@ package github.com/nspcc-dev/neo-go/pkg/core/native
+//@ iface INEO.GetNextBlockValidatorsInternal
+//@ assumed
+//@ pure
+//@ package github.com/nspcc-dev/neo-go/pkg/core
+
+// Block packing: the proposal is a prefix of the sorted pool content whose system fees sum
+// up to at most the block limit and which has at most the allowed number of transactions.
+//@ spec sumSys(l []*transaction.Transaction, k int) int decreases k = ite(k <= 0, 0, sumSys(l, k-1) + l[k-1].SystemFee)
+//@ func (*Blockchain).ApplyPolicyToTxSet
+//@ may-panic
+//@ opt frame off
+//@ requires bc != nil && forall(j, 0, len(txes), txes[j] != nil) && bc.config.MaxBlockSystemFee >= 0
+//@ ensures[prefix] len(result) <= len(txes) && (len(result) > 0 ==> same(result, txes[:len(result)]))
+//@ ensures[count] old(bc.config.MaxTransactionsPerBlock) != 0 ==> len(result) <= old(bc.config.MaxTransactionsPerBlock)
+//@ ensures[sysfee] (forall(j, 0, len(txes), 0 <= txes[j].SystemFee && txes[j].SystemFee <= 1 << 40) && len(txes) <= 1 << 20) ==> sumSys(txes, len(result)) <= old(bc.config.MaxBlockSystemFee)
+//@ loop 0 invariant[sum] (forall(j, 0, len(txes), 0 <= txes[j].SystemFee && txes[j].SystemFee <= 1 << 40) && len(txes) <= 1 << 20) ==> blockSysFee == sumSys(txes, $i) && blockSysFee <= maxBlockSysFee && 0 <= blockSysFee && blockSysFee <= $i * (1 << 40)
+
 // Admission guards in force when the transaction is handed to the pool.
 //@ func (*Blockchain).verifyAndPoolTx
 //@ may-panic
